@@ -48,6 +48,8 @@ CORE = {
             "gen": [{"acts": ["bind", "unbind", "listbinds", "disconnect", "entrem"], "maxlen": 3, "prefix": "PrefixP1P2"},
                     {"acts": ["bind", "unbind"], "rich": ["bind"], "maxlen": 2, "prefix": "PrefixP1"},
                     {"acts": ["bind", "unbind"], "rich": ["unbind"], "maxlen": 2, "prefix": "PrefixP1"},
+                    # (both peers connected: a delete of one peer that names the other peer's device and entry)
+                    {"acts": ["bind", "unbind"], "rich": ["unbind"], "tiny": ["bind"], "maxlen": 2, "prefix": "PrefixP1P2"},
                     {"acts": ["bind", "unbind", "listbinds"], "tiny": ["bind", "unbind"], "maxlen": 4, "prefix": "PrefixP1", "view": None},
                     {"acts": ["bind", "unbind", "disconnect", "entrem"], "maxlen": 4, "prefix": "PrefixP1P2", "ghost": 2}],
             "sim": [{"acts": DISC + ["bind", "unbind", "listbinds", "entrem", "entadd"], "rich": ["unbind", "listbinds"], "maxlen": 16, "num": 150}],
@@ -164,6 +166,7 @@ CORE = {
                     {"acts": ["sub", "unsub", "listsubs", "disconnect", "entrem", "setdata"], "maxlen": 2, "prefix": "PrefixP1P2"},
                     {"acts": ["sub", "unsub"], "rich": ["sub"], "maxlen": 2, "prefix": "PrefixP1"},
                     {"acts": ["sub", "unsub"], "rich": ["unsub"], "maxlen": 2, "prefix": "PrefixP1"},
+                    {"acts": ["sub", "unsub"], "rich": ["unsub"], "tiny": ["sub"], "maxlen": 2, "prefix": "PrefixP1P2"},
                     {"acts": ["sub", "unsub", "listsubs"], "tiny": ["sub", "unsub"], "maxlen": 4, "prefix": "PrefixP1", "view": None},
                     {"acts": ["sub", "unsub", "setdata", "bind", "write"], "rich": ["setdata"], "maxlen": 3, "prefix": "PrefixP1P2"}],
             "sim": [{"acts": DISC + ["sub", "unsub", "listsubs", "entrem", "entadd", "setdata", "bind", "write"], "rich": ["unsub", "listsubs", "setdata"], "maxlen": 20, "num": 150}],
